@@ -1,5 +1,4 @@
 import SC.Model.GoSsa
-import SC.Gen.GoSsa
 /-!
 Symbolic execution of the regenerated go/ssa programs: stepping lemmas for `GoSsa.run` whose left-hand sides need an
 explicit frame (so that `simp` steps the function under study and leaves calls into other functions folded), and the
